@@ -33,7 +33,7 @@ pub const P_MINT: Profile = Profile {
   name: "mint", blocks: (8, 18), max_tx: 4, w_commit: 4, p_named: 6, p_unnamed: 30, p_mint: 80, p_edicts: 25, max_edicts: 3, p_flaw: 15, p_plain: 5, p_inscribe: 0,
 };
 pub const P_ETCH: Profile = Profile {
-  name: "etch", blocks: (9, 20), max_tx: 4, w_commit: 35, p_named: 70, p_unnamed: 15, p_mint: 10, p_edicts: 20, max_edicts: 2, p_flaw: 12, p_plain: 5, p_inscribe: 0,
+  name: "etch", blocks: (10, 16), max_tx: 4, w_commit: 35, p_named: 70, p_unnamed: 15, p_mint: 10, p_edicts: 20, max_edicts: 2, p_flaw: 12, p_plain: 5, p_inscribe: 0,
 };
 
 pub const P_EVENTS: Profile = Profile {
@@ -311,6 +311,14 @@ impl Gen<'_> {
         _ => OutSpec::P2wpkh,
       });
     }
+    if p.p_inscribe > 0 && self.rng.chance(1, 4) {
+      // C37: a valued OP_RETURN output first, so that inscriptions are created on / moved onto it
+      feat(&mut self.f, "out:op_return-first");
+      if self.rng.chance(1, 3) {
+        outs.clear();
+      }
+      outs.insert(0, OutSpec::Script(vec![0x6a, 0x01, 0x58]));
+    }
     if plain {
       feat(&mut self.f, "tx:plain-transfer");
       self.maybe_inscribe(&mut ins);
@@ -387,6 +395,71 @@ impl Gen<'_> {
           }
         } else {
           feat(&mut self.f, "commit:no-input");
+        }
+        // several inputs that reveal a commitment (mature / immature / non-taproot commit outputs,
+        // the same or another name's commitment), in a random input order
+        if self.rng.chance(1, 2) {
+          let extra = 1 + self.rng.below(3);
+          let mut added = 0;
+          for _ in 0..extra {
+            let mut cands: Vec<(usize, u32)> = self.commits.iter().copied().filter(|o| !taken.contains(o)).collect();
+            if cands.is_empty() || self.rng.chance(1, 5) {
+              cands = self.funding.iter().copied().filter(|o| !taken.contains(o)).collect();
+            }
+            if cands.is_empty() {
+              break;
+            }
+            let o = *self.rng.pick(&cands);
+            taken.insert(o);
+            let witness = match self.rng.below(10) {
+              0 => vec![],
+              1 | 2 => {
+                feat(&mut self.f, "commit:other-name");
+                commit_witness(&Rune(r.0 + 1 + u128::from(self.rng.below(3))).commitment())
+              }
+              _ => commit_witness(&r.commitment()),
+            };
+            ins.push(InSpec { txnum: o.0, vout: o.1, witness });
+            added += 1;
+          }
+          if added > 0 {
+            for i in (1..ins.len()).rev() {
+              let j = self.rng.below(i as u64 + 1) as usize;
+              ins.swap(i, j);
+            }
+            // classify what the inputs look like, in order
+            let kinds: String = ins
+              .iter()
+              .map(|i| {
+                if i.txnum >= self.chain.txs.len() {
+                  return 'x'; // output of an earlier transaction of this block
+                }
+                let prev = &self.chain.txs[i.txnum];
+                let taproot = prev.tx.output[i.vout as usize].script_pubkey.is_p2tr();
+                let mature = h - prev.height + 1 >= 6;
+                let commits = commit_witness(&r.commitment()) == i.witness;
+                match (commits, taproot, mature) {
+                  (false, _, _) => 'x',
+                  (true, true, true) => 'M',
+                  (true, true, false) => 'i',
+                  (true, false, _) => 'n',
+                }
+              })
+              .collect();
+            let first_m = kinds.find('M');
+            feat(&mut self.f, "commit:multi");
+            if let Some(m) = first_m {
+              if kinds[..m].contains('i') {
+                feat(&mut self.f, "commit:multi:immature-before-mature");
+              }
+              if kinds[..m].contains('n') {
+                feat(&mut self.f, "commit:multi:non-taproot-before-mature");
+              }
+              if m > 0 {
+                feat(&mut self.f, "commit:multi:mature-in-later-input");
+              }
+            }
+          }
         }
         feat(&mut self.f, "etch:named");
       } else {
